@@ -89,6 +89,7 @@ func (r *runner) waitEvt(t int, d time.Duration) bool {
 		select {
 		case <-r.w.evt[t]:
 		case <-deadline:
+			noteTimeout()
 			return false
 		}
 	}
@@ -132,7 +133,6 @@ func (r *runner) settle(t int, kind string) {
 		}
 	}
 	if !r.waitEvt(t, curTimeout()) {
-		noteTimeout()
 		if os.Getenv("VERIF_RUNNER_DEBUG") != "" {
 			r.w.mu.Lock()
 			fmt.Fprintf(os.Stderr, "settle timeout: thread %x after %s; log: %s\n", t, kind, strings.Join(r.w.log, " "))
@@ -263,7 +263,9 @@ func (r *runner) exec(a action) {
 			m.token = false
 			w.emit(fmt.Sprintf("WK.%x", a.tid))
 			r.setParked(a.tid, false)
-			r.waitEvt(a.tid, curTimeout())
+			if !r.waitEvt(a.tid, curTimeout()) {
+				r.setParked(a.tid, true) // did not react to the wake-up: assume it is back in select
+			}
 		}
 	case "accept":
 		m := w.msgs[a.tid]
@@ -271,7 +273,9 @@ func (r *runner) exec(a action) {
 			w.emit(fmt.Sprintf("AC.%x.%x", a.tid, a.a.tid))
 			a.a.offering = 0
 			r.setParked(a.tid, false)
-			r.waitEvt(a.tid, curTimeout())
+			if !r.waitEvt(a.tid, curTimeout()) {
+				r.setParked(a.tid, true)
+			}
 		}
 	case "app":
 		ap := a.a
